@@ -31,6 +31,12 @@ Proof.
     destruct (is_nil on_a); [discriminate|]. destruct (negb (eqb on_a on_b)); [discriminate|]. unfold full_join_rewrite in H. exact (IH _ _ _ _ _ _ _ _ _ _ H).
 Qed.
 
+Lemma narrow_or_first_restrict q K q' : narrow_or_first q K = Some q' -> exists K', restrict_terms q K' = Some q'.
+Proof. unfold narrow_or_first. destruct K as [|k0 K]; [destruct (tkeys q) as [|t0 tk]|]; intros H; eexists; exact H. Qed.
+
+Lemma filter_all16 {A} (f : A -> bool) l : (forall x, In x l -> f x = true) -> filter f l = l.
+Proof. induction l as [|a t IH]; intros H; simpl; [reflexivity|]. rewrite (H a (or_introl eq_refl)). f_equal. apply IH. intros x I. apply H. right. exact I. Qed.
+
 Section Bare.
 Variable e : env.
 
@@ -79,24 +85,25 @@ Proof.
     assert (u <> [] -> su <> []) as NE by (intros NU X; destruct u as [|c0 t]; [congruence|]; assert (In c0 su) as I by (apply Hsu; left; reflexivity); rewrite X in I; destruct I).
     destruct (terms_is_none sub).
     + injection H as <- _. exact (bare_ok_empty e sub su u BK NE Hsu).
-    + unfold narrow_or_first in H. destruct (match su with [] => _ | _ => _ end) as [q0|] eqn:EN; [|discriminate]. injection H as <- _.
-      destruct su as [|c1 su']; [destruct (tkeys sub)|]; exact (bare_ok_restrict e sub _ q0 _ u BK EN NE Hsu).
+    + destruct (narrow_or_first sub su) as [q0|] eqn:EN; [|discriminate]. injection H as <- _.
+      destruct (narrow_or_first_restrict _ _ _ EN) as [K' EK]. exact (bare_ok_restrict e sub K' q0 su u BK EK NE Hsu).
   - (* drop_columns *)
     change (match usg with Some u0 => u0 | None => column_names (ODropCols s ds) end) with u in H. unfold bind in H.
     set (su := cfs1 (ODropCols s ds) u) in *.
-    destruct (to_near_f fuel d s (Some su) n) as [[sub n1]| |] eqn:ER; try discriminate.
     pose proof (bok_drop _ _ BO) as BOs.
     assert (forall c, In c u -> In c (column_names s) /\ ~ In c ds) as Hu.
     { intros c Hc. pose proof (Iu c Hc) as X. simpl in X. apply filter_In in X. destruct X as [A B]. apply negb_true_iff, mem_false in B. tauto. }
-    assert (forall c, In c su <-> In c u) as Hsu.
-    { intros c. unfold su, cfs1. simpl. rewrite filter_In. split; [tauto|]. intros I. split; [exact I|apply negb_true_iff, mem_false; apply Hu, I]. }
-    assert (incl su (column_names s)) as Isu by (intros c Hc; apply Hu, Hsu, Hc).
-    pose proof (IH d s (Some su) n sub n1 BOs (fun n0 cs0 I => WF n0 cs0 I) Isu ER) as BK. cbn beta iota in BK.
-    assert (u <> [] -> su <> []) as NE by (intros NU X; destruct u as [|c0 t]; [congruence|]; assert (In c0 su) as I by (apply Hsu; left; reflexivity); rewrite X in I; destruct I).
+    assert (su = u) as Esu.
+    { unfold su, cfs1. simpl. apply filter_all16. intros c Hc. apply negb_true_iff, mem_false. apply Hu, Hc. }
+    assert (filter (fun k => negb (mem k ds)) u = u) as Ekeep by (apply filter_all16; intros c Hc; apply negb_true_iff, mem_false; apply Hu, Hc).
+    rewrite Ekeep in H.
+    destruct (to_near_f fuel d s (Some su) n) as [[sub n1]| |] eqn:ER; try discriminate.
+    assert (incl su (column_names s)) as Isu by (rewrite Esu; intros c Hc; apply Hu, Hc).
+    pose proof (IH d s (Some su) n sub n1 BOs (fun n0 cs0 I => WF n0 cs0 I) Isu ER) as BK. cbn beta iota in BK. rewrite Esu in BK.
     destruct (terms_is_none sub).
-    + destruct (filter _ u); [|discriminate]. injection H as <- _. exact (bare_ok_empty e sub su u BK NE Hsu).
-    + unfold narrow_or_first in H. destruct (match filter _ u with [] => _ | _ => _ end) as [q0|] eqn:EN; [|discriminate]. injection H as <- _.
-      destruct (filter _ u) as [|c1 k']; [destruct (tkeys sub)|]; exact (bare_ok_restrict e sub _ q0 _ u BK EN NE Hsu).
+    + destruct u as [|c0 u']; [|discriminate]. injection H as <- _. apply (bare_ok_empty e sub [] []); [exact BK|auto|tauto].
+    + destruct (narrow_or_first sub u) as [q0|] eqn:EN; [|discriminate]. injection H as <- _.
+      destruct (narrow_or_first_restrict _ _ _ EN) as [K' EK]. apply (bare_ok_restrict e sub K' q0 u u BK EK); [auto|tauto].
   - unfold bind in H. destruct (to_near_f fuel d s _ n) as [[sub n1]| |]; try discriminate. injection H as <- _. apply bare_ok_unary.
   - unfold bind in H. destruct (to_near_f fuel d s _ n) as [[sub n1]| |]; try discriminate. injection H as <- _. apply bare_ok_unary.
   - unfold bind in H. destruct (to_near_f fuel d s _ n) as [[sub n1]| |]; try discriminate. injection H as <- _. apply bare_ok_unary.
@@ -107,3 +114,99 @@ Proof.
 Qed.
 
 End Bare.
+
+(* ------------------------------------------------------------------ the join node (generic dialect: no rewrite) *)
+Definition pick (x cs : list string) : list string := if is_nil x then firstn 1 cs else x.
+
+Lemma join_side cs w on : cs <> [] -> NoDup cs -> incl on cs -> incl on w ->
+  pick (set_inter cs w) cs <> [] /\ NoDup (pick (set_inter cs w) cs) /\ incl (pick (set_inter cs w) cs) cs /\
+  incl on (pick (set_inter cs w) cs) /\ (forall k, In k w -> In k cs -> In k (pick (set_inter cs w) cs)).
+Proof.
+  intros NE N Io Iw. unfold pick. destruct (is_nil (set_inter cs w)) eqn:EN.
+  - assert (forall k, In k cs -> In k w -> False) as X.
+    { intros k I1 I2. assert (In k (set_inter cs w)) as I by (apply In_set_inter; tauto). destruct (set_inter cs w); [destruct I|discriminate]. }
+    destruct cs as [|c0 t]; [congruence|]. simpl. split; [discriminate|]. split; [constructor; [intros []|constructor]|]. split; [intros x [<-|[]]; left; reflexivity|].
+    split; [intros k Ik; destruct (X k (Io k Ik) (Iw k Ik))|intros k I1 I2; destruct (X k I2 I1)].
+  - split; [intros X; rewrite X in EN; discriminate|]. split; [apply NoDup_set_inter, N|]. split; [intros k Ik; apply In_set_inter in Ik; tauto|].
+    split; [intros k Ik; apply In_set_inter; split; [apply Io, Ik|apply Iw, Ik]|intros k I1 I2; apply In_set_inter; tauto].
+Qed.
+
+Section JoinNode.
+Variable fl : flavor.
+Variable e : env.
+
+Lemma node_join d (srca srcb : option (list string) -> gen) a b on_a on_b jt usg n q n' :
+  d_join_carry d = true -> f_join_null_match fl = false -> builder_ok (OJoin a b on_a on_b jt) = true ->
+  column_names a <> [] -> column_names b <> [] ->
+  NoDup (match usg with Some u0 => u0 | None => column_names (OJoin a b on_a on_b jt) end) ->
+  incl (match usg with Some u0 => u0 | None => column_names (OJoin a b on_a on_b jt) end) (column_names (OJoin a b on_a on_b jt)) ->
+  gen_join d srca srcb (OJoin a b on_a on_b jt) a b on_a on_b jt true usg n = Ok (q, n') ->
+  (forall ul ql n1 n2, NoDup ul -> incl ul (column_names a) -> srca (Some ul) n1 = Ok (ql, n2) ->
+     exists A, sem_gen fl a e = Some A /\ Delivers fl e ql ul A /\ BareOk e ql ul) ->
+  (forall ur qr n1 n2, NoDup ur -> incl ur (column_names b) -> srcb (Some ur) n1 = Ok (qr, n2) ->
+     exists B, sem_gen fl b e = Some B /\ Delivers fl e qr ur B /\ BareOk e qr ur) ->
+  exists T, sem_gen fl (OJoin a b on_a on_b jt) e = Some T /\
+            Delivers fl e q (match usg with Some u0 => u0 | None => column_names (OJoin a b on_a on_b jt) end) T /\ MergeInv q.
+Proof.
+  intros C NM BO NEa NEb Nu Iu H HA HB.
+  destruct (bok_join _ _ _ _ _ BO) as [BOa BOb].
+  pose proof BO as BO'. cbn [builder_ok] in BO'. rewrite !andb_true_iff in BO'. destruct BO' as [[[[_ _] Sa] Sb] Len]. apply Nat.eqb_eq in Len.
+  pose proof (proj1 (subset_spec _ _) Sa) as Ia. pose proof (proj1 (subset_spec _ _) Sb) as Ib.
+  pose proof (builder_ok_nodup a BOa) as Na. pose proof (builder_ok_nodup b BOb) as Nb.
+  set (p := OJoin a b on_a on_b jt) in *.
+  set (u := match usg with Some u0 => u0 | None => column_names p end) in *.
+  unfold gen_join in H. rewrite C in H. cbv zeta in H. cbn [andb] in H. fold p in H. fold u in H.
+  clearbody u.
+  set (u1 := if is_nil u then firstn 1 (column_names p) else u) in *.
+  set (ask := set_union (set_union u1 on_a) on_b) in *.
+  change (cfs1 p ask) with (set_inter (column_names a) (ask ++ on_a ++ on_b)) in H.
+  change (cfs2 p ask) with (set_inter (column_names b) (ask ++ on_a ++ on_b)) in H.
+  set (w := ask ++ on_a ++ on_b) in *.
+  change (if is_nil (set_inter (column_names a) w) then firstn 1 (column_names a) else set_inter (column_names a) w)
+    with (pick (set_inter (column_names a) w) (column_names a)) in H.
+  change (if is_nil (set_inter (column_names b) w) then firstn 1 (column_names b) else set_inter (column_names b) w)
+    with (pick (set_inter (column_names b) w) (column_names b)) in H.
+  set (ul := pick (set_inter (column_names a) w) (column_names a)) in *.
+  set (ur := pick (set_inter (column_names b) w) (column_names b)) in *.
+  change (map (fun c : string => (c, TmCoalesce true c)) (filter (fun c : string => mem c u) (set_inter ul ur))
+          ++ pass_terms (filter (fun c : string => negb (mem c (set_inter ul ur))) ul)
+          ++ pass_terms (filter (fun c : string => negb (mem c (set_inter ul ur))) ur)) with (join_terms true u ul ur) in H.
+  assert (column_names p <> []) as NCp. { unfold p. simpl. destruct (column_names a); [congruence|discriminate]. }
+  assert (incl u1 (column_names p) /\ incl u u1) as [Iu1 Iuu1].
+  { unfold u1. destruct u as [|k0 ut]; cbn [is_nil].
+    - split; [|intros x []]. destruct (column_names p) as [|c0 t]; [congruence|]. cbn [firstn]. intros x [<-|[]]; left; reflexivity.
+    - split; [exact Iu|apply incl_refl]. }
+  assert (subset u1 (column_names p) = true) as Sb1 by (apply subset_spec; exact Iu1).
+  rewrite Sb1 in H. cbn [negb] in H.
+  assert (incl on_a w /\ incl on_b w) as [Iaw Ibw].
+  { unfold w. split; intros x Hx; apply in_app_iff; right; apply in_app_iff; [left|right]; exact Hx. }
+  destruct (join_side (column_names a) w on_a NEa Na Ia Iaw) as [NEl [Nl [Il [Ial Hl]]]].
+  destruct (join_side (column_names b) w on_b NEb Nb Ib Ibw) as [NEr [Nr [Ir [Ibr Hr]]]].
+  fold ul in NEl, Nl, Il, Ial, Hl. fold ur in NEr, Nr, Ir, Ibr, Hr.
+  unfold bind in H.
+  destruct (srca (Some ul) (S n)) as [[ql n2]| |] eqn:ERl; try discriminate.
+  destruct (srcb (Some ur) n2) as [[qr n3]| |] eqn:ERr; try discriminate.
+  injection H as <- _.
+  destruct (HA ul ql _ _ Nl Il ERl) as [A [EA [DA BA]]]. destruct (HB ur qr _ _ Nr Ir ERr) as [B [EB [DB BB]]].
+  exists (sem_join (f_join_null_match fl) on_a on_b jt A B). split; [unfold p; simpl; rewrite EA, EB; reflexivity|]. split; [|apply merge_inv_binary].
+  pose proof (sem_cols fl a e A EA) as CA. pose proof (sem_cols fl b e B EB) as CB.
+  assert (forall k, In k u -> (In k (cols A) -> In k ul) /\ (In k (cols B) -> In k ur) /\ (In k (cols A) \/ In k (cols B))) as Hu.
+  { intros k Ik.
+    assert (In k w) as Ikw by (unfold w; apply in_app_iff; left; unfold ask; apply In_set_union; left; apply In_set_union; left; apply Iuu1, Ik).
+    rewrite CA, CB. split; [intros X; apply Hl; assumption|]. split; [intros X; apply Hr; assumption|].
+    pose proof (Iu k Ik) as X. unfold p in X. simpl in X. apply in_app_iff in X. destruct X as [X|X]; [left; exact X|right; apply filter_In in X; tauto]. }
+  assert (join_terms true u ul ur = [] -> u = []) as ENil.
+  { intros ET. destruct u as [|k0 ut]; [reflexivity|exfalso].
+    destruct (Hu k0 (or_introl eq_refl)) as [H1 [H2 H3]].
+    assert (In k0 (map fst (join_terms true (k0 :: ut) ul ur))) as X.
+    { apply join_terms_keys_iff. destruct H3 as [H3|H3].
+      - pose proof (H1 H3) as L. destruct (In_dec string_dec k0 ur) as [R|R]; [left; split; [exact L|split; [exact R|left; reflexivity]]|right; left; tauto].
+      - pose proof (H2 H3) as R. destruct (In_dec string_dec k0 ul) as [L|L]; [left; split; [exact L|split; [exact R|left; reflexivity]]|right; right; tauto]. }
+    rewrite ET in X. destruct X. }
+  destruct (join_terms true u ul ur) as [|t0 tt] eqn:ET.
+  - rewrite (ENil eq_refl). cbn [norm]. apply delivers_join_star; assumption.
+  - cbn [norm]. rewrite <- ET.
+    apply delivers_join; try assumption; try (rewrite CA; assumption); try (rewrite CB; assumption).
+    rewrite ET. discriminate.
+Qed.
+End JoinNode.
